@@ -218,9 +218,9 @@ def fill_caps(rng, lay, rows):
             # carry the row id in one capture so that every transaction is attributable
             k = lay['extras'][0]
             r['caps'][k] = r['caps'][k] + ' r%d' % r['id']
-            if rng.random() < 0.12:
+            if rng.random() < 0.3:
                 # a cell is data: text that looks like a placeholder of this very template stays what it is
-                other = rng.choice(lay['extras'])
+                other = rng.choice(lay['extras'][1:] or lay['extras'])      # (preferably the placeholder of a capture filled in later)
                 r['caps'][k] = r['caps'][k] + rng.choice([' {%s}' % other, ' {x}', ' {{braces}}', ' %s $1 \\1', ' {0}'])
         elif lay['extras'] and rng.random() < 0.05:
             r['caps'][lay['extras'][0]] = r['caps'][lay['extras'][0]] + ' {description}'
